@@ -46,7 +46,7 @@ class JSONReader(TextToModel):
 
 def parse_tree(parent: Optional[Feature], feature_node: Dict[str, Any]) -> Feature:
     """Parse the tree structure and returns the root feature."""
-    feature_name = feature_node['name']
+    feature_name = unquote(feature_node['name'])
     is_abstract = feature_node['abstract'] in (True, 'True')  # the writer stores str(bool)
     feature = Feature(name=feature_name, parent=parent, is_abstract=is_abstract)
 
@@ -58,7 +58,7 @@ def parse_tree(parent: Optional[Feature], feature_node: Dict[str, Any]) -> Featu
 def parse_attributes(feature: Feature, feature_node: Dict[str, Any]) -> None:
     if 'attributes' in feature_node:
         for attribute in feature_node['attributes']:
-            attribute_name = attribute['name']
+            attribute_name = unquote(attribute['name'])
             attribute_value = attribute.get('value')
             attr = Attribute(attribute_name, None, attribute_value, None)
             attr.set_parent(feature)
@@ -109,7 +109,7 @@ def parse_ast_constraint(ctc_info: Dict[str, Any]) -> Node:
     ctc_operands = ctc_info['operands']
     node = None
     if ctc_type == JSONFeatureType.FEATURE.value:
-        feature_name = ctc_info['operands'][0]
+        feature_name = unquote(ctc_info['operands'][0])
         node = Node(feature_name)
     elif ctc_type == ASTOperation.NOT.value:
         left = parse_ast_constraint(ctc_operands[0])
@@ -142,3 +142,10 @@ def parse_ast_constraint(ctc_info: Dict[str, Any]) -> Node:
     else:
         raise ParsingException(f'Invalid constraint in JSON: {ctc_info}')
     return node
+
+
+def unquote(name: str) -> str:
+    """Undo the quoting the writer's safename() applies to names outside [A-Za-z0-9_]."""
+    if len(name) >= 2 and name.startswith('"') and name.endswith('"'):
+        return name[1:-1]
+    return name
